@@ -99,6 +99,10 @@ func c14Exec(p c14Program) (*sched.Result, []lcall) {
 						do(th, agentOp{Kind: "stop", ID: 1}, ci)
 					case 3:
 						do(th, agentOp{Kind: "collect", T: 5}, ci)
+					case 4: // Start(C) from the first event of the call only
+						if len(calls[ci].Events) == 1 {
+							do(th, agentOp{Kind: "start", ID: 2, T: 4}, ci)
+						}
 					}
 				}
 			}
@@ -323,6 +327,9 @@ func init() {
 				if p.Init >= 100 && bound > 2 {
 					bound = 2 // ~110 scheduling points per execution: two preemptions already give ~10^4 executions
 				}
+				if p.Init >= 1000 {
+					bound = 1 // ~1040 scheduling points per execution
+				}
 				st := explore.Explore(c14Run(p), explore.Options{Preemptions: bound, EnvDevs: -1, Deadline: c.Deadline})
 				if st.HarnessError != "" {
 					c.Fail("%s on %v", st.HarnessError, p)
@@ -421,6 +428,12 @@ func init() {
 				{{Kind: "start", ID: 4 + 50, T: 1}, {Kind: "stop", ID: 4 + 102}},
 			} {
 				explored(c14Program{Init: 104, Mode: 0, Threads: [][]agentOp{{{Kind: "collect", T: 5}}, other}})
+			}
+			// a table that once held more than 1024 transactions and is drained to empty by one call whose first
+			// handler registers a new transaction (anything the agent does to its table "when it is empty" must look again)
+			for _, other := range [][]agentOp{{{Kind: "start", ID: 3, T: 4}}, {{Kind: "stop", ID: 4 + 7}}} {
+				explored(c14Program{Init: 1030, Mode: 4, Threads: [][]agentOp{{{Kind: "collect", T: 5}, {Kind: "stop", ID: 2}}, other}})
+				explored(c14Program{Init: 1030, Mode: 4, Threads: [][]agentOp{{{Kind: "close"}}, other}})
 			}
 			// handler re-entering with Collect on the base programs of two threads x 1 operation
 			for init := 1; init <= 3; init++ {
